@@ -3,8 +3,8 @@ import os, itertools
 from common import *
 
 PID = 'C17'
-TARGETS = ['Properties/C17.vo', 'Bridge/DescBridge.vo', 'Bridge/InitBridge.vo', 'Bridge/PlumbingBridge.vo']
-KERNELS = ['G7_auto', 'G15_init', 'G17_builder']      # G15_init: the constructor path that hands a keyword to the descriptor
+TARGETS = ['Properties/C17.vo', 'Bridge/DescBridge.vo', 'Bridge/InitBridge.vo', 'Bridge/PlumbingBridge.vo', 'Bridge/MiscAutoBridge.vo']
+KERNELS = ['G7_auto', 'G15_init', 'G17_builder', 'G20c_auto_ctor']      # G15_init: the constructor path that hands a keyword to the descriptor
 PROP_FILE = 'Properties/C17.v'
 
 HEADER_COQ = """From Coq Require Import ZArith List Bool.
